@@ -1,5 +1,5 @@
 SPECIFICATION Spec
-CONSTANTS NLoops = 1  MaxConns = 1  MaxRegs = 0  ReusePort = FALSE  Ticker = FALSE
+CONSTANTS NLoops = 1  MaxConns = 1  MaxRegs = 0  ReusePort = FALSE  LB = "any"  Ticker = FALSE
           Sources = {"stop"}
 INVARIANTS NoLeak
 CHECK_DEADLOCK FALSE
